@@ -443,8 +443,14 @@ func buildCompoundOperator(o interface{}, depth int, operator string) (string, b
 
 				ands = append(ands, bldexpr)
 			} else {
+				// a plain string, number or boolean stands for a condition object here as it does everywhere else
+				operand, err := parseOperand(andarr[i], false, false)
+				if err != nil {
 
-				return "", false, fmt.Errorf("and operands must be an array of objects")
+					return "", false, err
+				}
+
+				ands = append(ands, operand)
 			}
 		}
 		if depth > 0 {
